@@ -67,6 +67,26 @@ def part_encodings(ctx):
     ctx.sample({"part": "encodings", "base": BASES[0], "re-encodings": items[0]["encs"][1:3]})
     sc = [dict(enc=rng.choice(by[bi]), nr=3, nc=3, seed=ctx.seed + i, y=(None if i % 2 else [0, 1, 0])) for i, bi in
           enumerate([1, 2, 3] * ctx.pick(4, 20))]
+    # columns whose raw weight is 0 or slightly negative (a column distributed like the row masses; the approximate prior with a
+    # strong prior on a column concentrated on the heaviest rows): the learned weight must still be finite and non-negative for
+    # every weight_power
+    import numpy as np
+    kws = [dict(approx_prior=True, prior_strength=5.0, weight_power=1.0), dict(approx_prior=True, prior_strength=5.0, weight_power=0.5),
+           dict(approx_prior=False, prior_strength=0.5, weight_power=1.0), dict(approx_prior=False, prior_strength=0.5, weight_power=1.5),
+           dict(approx_prior=False, prior_strength=0.5, weight_power=3.0)]
+    r0 = np.random.RandomState(0)
+    heavy = np.zeros((23, 4))
+    heavy[:3, 0] = [30, 30, 30]
+    heavy[:3, 1] = [20, 25, 30]
+    heavy[:3, 2] = [25, 20, 15]
+    heavy[3:, 3] = 1
+    heavy[3:, 2] += r0.randint(0, 2, size=20)
+    sc.append(dict(matrix=heavy.tolist(), kws=kws, seed=ctx.seed, y=None, enc="heavy rows"))
+    for k in range(ctx.pick(12, 60)):
+        rk = np.random.RandomState(k)
+        A = rk.randint(0, 6, size=(4, 2)).astype(float)
+        A[A.sum(1) == 0, 0] = 1
+        sc.append(dict(matrix=np.hstack([A, A.sum(1, keepdims=True)]).tolist(), kws=kws, seed=ctx.seed + k, y=None, enc="total column %d" % k))
     res = pool_map("iw", "scaling", sc, nproc=4, min_chunk=3)
     judge(ctx, sc, res, "column_scaling", lambda it: {"enc": it["enc"], "supervised": it["y"] is not None})
 
